@@ -108,14 +108,18 @@ CHECKS.update({
               "verified with prysm under the group key over the proposed payload and compared byte for byte with bls.Sign(sum of dealer secrets)."),
         ref='7 C01', note=ALG_NOTE),
     'C02': dict(
-        technique='Lean 4 + Mathlib theorems (linearity of Pedersen-DKG bookkeeping, permutation invariance, Lagrange interpolation for t-1 insufficiency) + differential algdiff on real ceremonies + fsmdiff on the master-key phase with real polynomial encodings',
+        technique='Lean 4 + Mathlib theorems (linearity of Pedersen-DKG bookkeeping, permutation invariance, Lagrange interpolation for t-1 insufficiency; an invariant of a model of the airgapped key-generation handlers by induction over every operation sequence) + differential algdiff on real ceremonies (shares, recoveries and every handler operation vs the compiled model) + fsmdiff on the master-key phase with real polynomial encodings',
         text=("Proof. lean/Dc4bcVerif/Props/C02.lean: share_on_pubpoly (if every deal to j passed the verification equation against its dealer's broadcast "
               "commitments - whatever the dealers did - then j's final share lies on the sum of the commitment vectors), evalCommit_commit, pubpoly_order_indep "
               "(delivery order irrelevant), sumCommits_length (degree t-1), group_key, t_minus_one_insufficient (t-1 shares are consistent with every secret); "
               "with C01: any t shares sign consistently. Tie: algdiff compares on real ceremonies the machines' shares with the model, checks every share on the "
               "common polynomial, the polynomial retained by every hot node, the announced master keys, g^(sum of secrets) = group key; fsmdiff covers the "
               "master-key phase incl. announcements with equal key and differing / extended polynomial (real PubPolyBytes encodings). Props/C02Fsm.lean: signing_ready_keys_agree "
-              "(any reachable signing-ready round has all n statuses confirmed and all announced master keys equal) and retained_poly."),
+              "(any reachable signing-ready round has all n statuses confirmed and all announced master keys equal) and retained_poly. "
+              "At the airgapped machine (Model/AirDkg.lean: the four key-generation handlers with kyber's Pedersen DKG / VSS bookkeeping - verifiers, responses, session ids, justification, Certified, dkgKey - in the exponent; "
+              "Lemmas/AirDkgInv.lean; Props/C02Air.lean): stored_share_on_announced_polynomial - after ANY sequence of operations and restarts, with any payloads and any order of Go's map ranges, a master-key step that is answered with an announcement "
+              "stores a share lying on the announced polynomial at the machine's node and announces that polynomial's constant term (invariant: a verifier holding the machine's own approval holds a deal whose share lies on the deal's commitments; certified => own approval; linearity of Horner evaluation; any field). "
+              "Tie: the airdkg stream of algdiff - every commits / deals / responses / master-key operation of every real machine of the ceremonies vs the compiled model."),
         ref='7 C02', note=ALG_NOTE),
 })
 
